@@ -211,6 +211,27 @@ def shapes_cases(rng, tier):
     return cases, {"shape_histories": len(cases)}
 
 
+def generic_cases(rng, tier):
+    """'102 <container> | calls': traits with type and lifetime parameters; one implementor, several instantiations (harness/prog/src/generic.rs)"""
+    fixed = [[0, 5], [1, 2], [1, 9], [2], [3, 70], [4, 0], [4, 3], [5], [6, 2], [6, 0], [7, 1, 2, 3], [8, 0], [8, 4], [9], [10, 1], [10, 7]]
+    cases = ["102 %d | %s" % (k, " ; ".join(" ".join(map(str, o)) for o in fixed)) for k in (0, 1, 2)]
+    n = 40 if tier == "quick" else 1000
+    for _ in range(n):
+        ops = []
+        for _ in range(rng.range(1, 30)):
+            c = rng.below(11)
+            if c in (0, 3):
+                ops.append([c, rng.choice([0, 1, 255, 65536, 2 ** 32 - 1, rng.range(0, 10 ** 6)])])
+            elif c in (1, 4, 8, 10, 6):
+                ops.append([c, rng.range(0, 6)])
+            elif c == 7:
+                ops.append([7, rng.range(0, 255), rng.range(0, 2 ** 32 - 1), rng.range(-10 ** 9, 10 ** 9)])
+            else:
+                ops.append([c])
+        cases.append("102 %d | %s" % (rng.below(3), " ; ".join(" ".join(map(str, o)) for o in ops)))
+    return cases, {"generic_trait_histories": len(cases)}
+
+
 def life_cases(rng, tier, with_borrowed=True):
     cases = ["106 | 0 1 ; 1 0 ; 2 0 ; 2 0 ; 7 1 ; 4 0 ; 1 3 ; 7 3", "106 | 0 1 ; 5 0", "106 | 8 5 ; 6 0 ; 6 1 ; 7 0", "106 | 10 7 1 ; 11 0 ; 6 1 ; 12 1 ; 11 3",
              "106 | 10 7 0 ; 11 0", "106 | 13 4 ; 14 5", "106 | 0 2 ; 2 0 ; 5 0 ; 1 1", "106 | 15 -77 ; 1 0 ; 7 0", "106 | 15 -77 ; 15 -77 ; 7 1",
